@@ -3,8 +3,10 @@
 import json, os
 HERE = os.path.dirname(os.path.dirname(os.path.abspath(__file__)))
 PY = '/venv/bin/python'
-SETUP = ("/venv/bin/python -c 'import hypothesis' 2>/dev/null || "
-         "/venv/bin/pip install --no-index --find-links /opt/veriftools/wheels hypothesis")
+SETUP = ("(/venv/bin/python -c 'import hypothesis' 2>/dev/null || "
+         "/venv/bin/pip install --no-index --find-links /opt/veriftools/wheels hypothesis) && "
+         "(/venv/bin/pip install -q --no-index --find-links /opt/veriftools/wheels --target .deps atheris "
+         "|| echo 'atheris not installable: C14 byte-fuzz tier will be skipped')")
 
 CHECKS = {}   # id -> dict(engine, technique, text, note, design_ref)
 PENDING = {}  # id -> reason (not yet claimed)
